@@ -109,7 +109,7 @@ def _inputs(job: dict[str, Any]) -> list[bytes]:
         for n in range(0, job["maxlen"] + 1):
             for tup in itertools.product(alpha, repeat=n):
                 out.append(b"".join(tup))
-        return out
+        return out[job.get("part", 0) :: job.get("parts", 1)]
     for _ in range(job["count"]):
         kind = rng.choice(["rand", "rep", "text", "chunkedge", "zeros"])
         if kind == "rand":
@@ -240,10 +240,12 @@ def main(tier: str, seed: int) -> int:
     nsh = shard.ncpu()
     jobs: list[dict[str, Any]] = []
     maxlen = 3 if tier == "quick" else 5
-    jobs.append({"tier": tier, "seed": seed, "kind": "exhaustive", "maxlen": maxlen})
-    count = 12 if tier == "quick" else 150
-    for i in range(nsh - 1):
-        jobs.append({"tier": tier, "seed": seed * 1000 + i + 1, "kind": "random", "count": count, "bigzero": 1 << 22})
+    parts = max(2, nsh // 2)
+    for part in range(parts):
+        jobs.append({"tier": tier, "seed": seed, "kind": "exhaustive", "maxlen": maxlen, "part": part, "parts": parts})
+    count = 6 if tier == "quick" else 150
+    for i in range(max(1, nsh - parts)):
+        jobs.append({"tier": tier, "seed": seed * 1000 + i + 1, "kind": "random", "count": count, "bigzero": (1 << 21) if tier == "quick" else (1 << 22)})
     for res in shard.pmap("checks.c18", "run_shard", jobs, timeout=900 if tier == "quick" else 3000):
         chk.merge(res)
     chk.exhaustive[f"alphabet4_len<={maxlen}"] = True
